@@ -385,10 +385,16 @@ func (in *Interp) store(p Ptr, t types.Type, v Value) {
 		} else {
 			in.storeWord(p, in.box(iv))
 		}
-		in.storeWord(Ptr{p.ID, p.Off + 8}, 0)
+		// the data word is only meaningful for pointer-shaped dynamic values
+		// (code that peeks at it with unsafe reads the pointer identity)
+		if dp, ok := iv.V.(Ptr); ok && iv != nil && iv.T != nil {
+			in.storeWord(Ptr{p.ID, p.Off + 8}, ptrAddr(dp))
+		} else {
+			in.storeWord(Ptr{p.ID, p.Off + 8}, 0)
+		}
 	case *types.Signature:
 		f := v.(*FuncV)
-		if f == nil || (f.Fn == nil && f.B == nil) {
+		if f == nil || (f.Fn == nil && f.B == nil && f.N == nil) {
 			in.storeWord(p, 0)
 		} else {
 			in.storeWord(p, in.box(f))
